@@ -227,6 +227,72 @@ def run(ctx):
             except Exception:
                 ctx.judged("label-reject", ("lab", bad))
 
+    # ---------------- E. decode() of fresh row selections (the object handed to decode has not been looked at before) -----------
+    def decode_selection(case):
+        import random
+        r = random.Random(case["seed"])
+        name, enc = encs[case["enc"]]
+        alphabet = list(enc.get_alphabet())
+        n = r.randint(1, 7)
+        rows = ["".join(r.choice(alphabet) if r.random() < 0.8 else r.choice(alphabet).lower() for _ in range(r.choice([0, 1, 2, 3, 5, 9]))) for _ in range(n)]
+        rows = [x if all(accepts([c.upper() for c in alphabet], ord(ch)) for ch in x) else x.upper() for x in rows]
+        x = bnp.as_encoded_array(rows, enc)
+        kind = r.choice(["whole", "reverse", "perm", "mask", "repeat", "tail", "step", "single-row", "flat"])
+        if kind == "whole":
+            idx = list(range(n)); sel = x
+        elif kind == "reverse":
+            idx = list(range(n))[::-1]; sel = x[::-1]
+        elif kind == "perm":
+            idx = list(range(n)); r.shuffle(idx); sel = x[np.array(idx)]
+        elif kind == "mask":
+            m = [r.random() < 0.6 for _ in range(n)]
+            idx = [i for i in range(n) if m[i]]; sel = x[np.array(m)]
+        elif kind == "repeat":
+            idx = [r.randrange(n) for _ in range(r.randint(1, 6))]; sel = x[np.array(idx)]
+        elif kind == "tail":
+            k = r.randrange(n); idx = list(range(k, n)); sel = x[k:]
+        elif kind == "step":
+            idx = list(range(0, n, 2)); sel = x[::2]
+        elif kind == "single-row":
+            k = r.randrange(n); idx = [k]; sel = x[k]
+        else:
+            idx = list(range(n)); sel = x.ravel()
+        want = [rows[i].upper() for i in idx]
+        if kind in ("single-row", "flat"):
+            want = ["".join(want)]
+        dec = enc.decode(sel)       # nothing has touched `sel` before this call
+        got = decode_text(dec)
+        if kind in ("single-row", "flat"):
+            got = ["".join(got)]
+        ctx.check("decode-selection", got == want, "decode-selection-differs:%s" % kind, "%s.decode of a %s selection of %r gave %r, expected %r" % (name, kind, rows, got, want),
+                  {"encoding": name, "rows": rows, "selection": kind, "idx": idx, "got": got, "want": want, "seed": case["seed"]}, (name, kind, tuple(want)) if sum(map(len, want)) else None)
+        ctx.count("decode_selection")
+        again = decode_text(enc.decode(sel))
+        if kind in ("single-row", "flat"):
+            again = ["".join(again)]
+        ctx.check("decode-selection", again == want, "decode-selection-differs-second-time:%s" % kind, "second decode of the same selection differs", {"encoding": name, "rows": rows, "got": again, "want": want, "seed": case["seed"]}, None)
+        if ctx.shard % 2 == 0 and name.startswith(("ACGT", "ACTG", "custom")):
+            return
+        # numeric ragged selections
+        from bionumpy.encodings import QualityEncoding
+        from npstructures import RaggedArray
+        lst = [[r.randrange(0, 60) for _ in range(r.choice([0, 1, 3, 4]))] for _ in range(n)]
+        q = RaggedArray(lst, dtype=np.uint8)
+        if r.random() < 0.5:
+            qidx = list(range(n))[::-1]; qsel = q[::-1]
+        else:
+            qidx = [r.randrange(n) for _ in range(3)]; qsel = q[np.array(qidx)]
+        d = QualityEncoding.decode(qsel)    # numeric encoding: value + 33, row for row
+        gotq = [[int(v) for v in row] for row in d.tolist()]
+        wantq = [[v + 33 for v in lst[i]] for i in qidx]
+        ctx.check("decode-selection", gotq == wantq, "decode-selection-differs:quality-ragged", "QualityEncoding.decode of a row selection gave %r, expected %r" % (gotq, wantq),
+                  {"got": gotq, "want": wantq, "seed": case["seed"]}, ("q", repr(wantq)) if sum(map(len, wantq)) else None)
+
+    for i in range(ctx.share(ctx.pick(6000, 60000))):
+        sd = ctx.seed * 1000003 + ctx.shard * 100003 + i
+        ctx.run_case(decode_selection, {"seed": sd, "enc": i % len(encs)})
+    ctx.floor("decode_selection", 50)
+
     if ctx.shard == 0:
         ctx.run_case(numeric, "numeric")
         ctx.run_case(labels, "labels")
